@@ -375,6 +375,79 @@ def run_dd_behind_clean(ctx, focus, nscen, salt=19):
     return scenarios
 
 
+def make_rsp_kept_history(g, sc):
+    """A response file that a failed command left on disk, and a content that gets shorter before the command is run again:
+    the statement's rspfile_content grows, the command fails (ninja keeps the file for inspection), then the content loses its
+    tail - what is to be written is the beginning of what is there - and the cause of the failure is gone."""
+    r = g.r
+    cur = copy.deepcopy(sc)
+    rs = [s for s in cur["stmts"] if s["kind"] == "cmd" and s["rsp"] and not s["generator"]]
+    if not rs:
+        return None
+    v = r.choice(rs)
+    steps, meta = [], []
+
+    def add(step, **m):
+        steps.append(step)
+        m["sc"] = copy.deepcopy(cur)
+        meta.append(m)
+
+    def b(**kw):
+        st = g.build_step(cur)
+        st["targets"] = []
+        st.pop("faults", None)
+        st.update(kw)
+        return st
+    first = b()
+    add(first, kind="build", first=True)
+    for _ in range(r.randint(1, 2)):
+        v["rsp_content"] += " -Wextra%d -Dlong_tail=%d" % (r.randint(0, 99), r.randint(0, 99))
+        add(simlib.manifest_step(cur), kind="change", desc=("rsp", v["id"]))
+        y = b(k=r.choice((1, 0)))
+        y["faults"] = {v["outs"][0]: {"exit": r.choice((1, 2, 3)), "touch": r.random() < 0.3}}
+        add(y, kind="build", faulty=True, changes=[("rsp", v["id"])])
+        toks = v["rsp_content"].split(" ")
+        v["rsp_content"] = " ".join(toks[:-r.randint(1, 2)])
+        add(simlib.manifest_step(cur), kind="change", desc=("rsp", v["id"]))
+        z = b()
+        add(z, kind="build", changes=[("rsp", v["id"])])
+        add(dict(z, sched={"mode": "prng", "seed": r.randint(1, 10 ** 6)}), kind="rebuild")
+    return cur, steps, meta
+
+
+def run_rsp_kept(ctx, focus, nscen, salt=23):
+    rng = random.Random(ctx.seed * 7919 + {"C01": 1, "C02": 2, "C03": 3}.get(focus, 0) + salt * 104729)
+    scenarios, metas = [], {}
+    for n in range(nscen):
+        g = gen.Gen(random.Random(rng.randint(0, 2 ** 60)), size=rng.randint(2, 6),
+                    feat=dict(rsp=0.9, deps=0.3, restat=0.15, phony=0.15, generator=0.0, chain=0.7, dyndep=0.0))
+        sc = g.scenario("%s-%d-rspk-%d" % (focus, ctx.seed, n))
+        h = make_rsp_kept_history(g, sc)
+        if h is None:
+            continue
+        cur0, steps, meta = h
+        scn = simlib.scenario_json(meta[0]["sc"], steps)
+        scenarios.append(scn)
+        metas[scn["id"]] = meta
+    judge = HistoryJudge(ctx, focus)
+
+    def handler(scn, results, err):
+        if results is None:
+            ctx.inconclusive += 1
+            ctx.count("nsim_died")
+            return
+        try:
+            judge.judge(scn, metas[scn["id"]], results)
+            ctx.count("rspfile_kept_then_shorter_histories")
+        except Exception:
+            import traceback
+            traceback.print_exc()
+            ctx.inconclusive += 1
+            ctx.count("judge_exceptions")
+    simlib.run_scenarios(scenarios, handler)
+    return scenarios
+
+
 def make_dd_deps_history(g, sc):
     """A statement served by a dyndep file that also has discovered dependencies of its own (depfile / deps log).  What the
     scan finds out about those - record missing, or older than the output because the command failed after rewriting it, or
